@@ -76,6 +76,8 @@ def jobs(tier):
         sh.append(('omen', 'utf-8', 0x20, 0x300))
     for enc in ('latin-1', 'cp1251'):
         sh.append(('omen8', enc))
+    for enc in ('utf-8', 'latin-1'):
+        sh.append(('hexjunk', enc))
     # a 16-bit encoding end to end (not ASCII compatible: exposes readers that ignore the ruleset encoding)
     sh.append(('omen_list', 'utf-16', [0x20, 0x41, 0x61, 0xE9, 0x430, 0x20AC, 0x3042, 0x1F600, 0xA0, 0x3000, 0x21, 0x31]))
     return sh
@@ -204,10 +206,10 @@ class ScorerGrammar:
         self.count_other = {}
 
 
-def compare_training(wd, lines, enc, acc, case):
+def compare_training(wd, lines, enc, acc, case, raw_bytes=None):
     """one training; returns list of (sig, msg)"""
     fails = []
-    ok, base, out, pi, cap = O.train_capture(wd, lines, rule='c7', encoding=enc, ngram=2, alphabet_size=100000, coverage=0.5)
+    ok, base, out, pi, cap = O.train_capture(wd, lines, rule='c7', encoding=enc, ngram=2, alphabet_size=100000, coverage=0.5, raw_bytes=raw_bytes)
     if ok is not True or 'trainer' not in cap:
         return [('train', 'training did not complete: %s' % out[-160:])]
     tr = cap['trainer']
@@ -343,8 +345,68 @@ def run_omen(enc, cps, acc):
     tree.rmtree(wd)
 
 
+def run_hexjunk(enc, acc):
+    """Characters that the line format cannot carry, smuggled in through the $HEX[] notation of the training file: the reader must
+    reject the decoded password (or whatever it accepts must still round-trip through every loader)."""
+    tree.use()
+    wd = tree.mkdtemp('pcfgmc-c07h-')
+    danger = [chr(c) for c in list(range(0, 0x20)) + [0x85, 0x2028, 0x2029]]
+    danger = [ch for ch in danger if can_encode(ch, enc)]
+    base = [b'xqyz', b'xqyz', b'abcd1']
+
+    def hexline(s):
+        return b'$HEX[' + s.encode(enc).hex().encode('ascii') + b']'
+    cases = [('x' + ch + 'yz') for ch in danger] + [ch + 'xyz' for ch in danger] + ['xyz' + ch for ch in danger] + ['']
+    acc.evals += 1
+    acc.nontrivial += len(cases)
+    data = b'\n'.join(base + [hexline(c) for c in cases]) + b'\n'
+    fails = compare_training(wd, None, enc, acc, None, raw_bytes=data)
+    clean = None
+    if not fails:
+        # the smuggled lines must also leave the ruleset exactly as the clean list does
+        ok, b1, _, _ = P.train(wd, None, rule='hj', raw_bytes=data, encoding=enc, ngram=2, alphabet_size=100000, coverage=0.5)
+        ok2, b2, _, _ = P.train(wd, None, rule='hc', raw_bytes=b'\n'.join(base) + b'\n', encoding=enc, ngram=2, alphabet_size=100000, coverage=0.5)
+        t1, t2 = P.tree_bytes(b1), P.tree_bytes(b2)
+        for t in (t1, t2):
+            t['config.ini'] = b'\n'.join(l for l in t['config.ini'].split(b'\n') if not l.startswith(b'number_of_encoding_errors'))
+        if t1 != t2:
+            fails.append(('hexjunk-leak', 'ruleset differs from the one trained without the $HEX lines in %r' % sorted(k for k in set(t1) | set(t2) if t1.get(k) != t2.get(k))[:4]))
+    if fails:
+        found = 0
+        for c in cases:
+            d1 = b'\n'.join(base + [hexline(c)]) + b'\n'
+            f1 = compare_training(wd, None, enc, acc, None, raw_bytes=d1)
+            acc.evals += 1
+            if not f1:
+                ok, b1, _, _ = P.train(wd, None, rule='hj', raw_bytes=d1, encoding=enc, ngram=2, alphabet_size=100000, coverage=0.5)
+                ok2, b2, _, _ = P.train(wd, None, rule='hc', raw_bytes=b'\n'.join(base) + b'\n', encoding=enc, ngram=2, alphabet_size=100000, coverage=0.5)
+                t1, t2 = P.tree_bytes(b1), P.tree_bytes(b2)
+                for t in (t1, t2):
+                    t['config.ini'] = b'\n'.join(l for l in t['config.ini'].split(b'\n') if not l.startswith(b'number_of_encoding_errors'))
+                if t1 != t2:
+                    f1 = [('hexjunk-leak', 'the decoded password leaves a trace in %r' % sorted(k for k in set(t1) | set(t2) if t1.get(k) != t2.get(k))[:3])]
+            for sig, msg in f1[:1]:
+                found += 1
+                acc.fail({'layer': 'hexjunk', 'encoding': enc, 'decoded_password': c},
+                         'training line %r (decodes to %r, %s): %s' % (hexline(c).decode('ascii'), c, enc, msg), 'hexjunk:' + sig)
+        if not found:
+            acc.fail({'layer': 'hexjunk', 'encoding': enc}, 'batch of $HEX lines: %s' % fails[0][1], 'hexjunk:batch')
+    acc.sample({'layer': 'hexjunk', 'encoding': enc, 'lines': [hexline(c).decode('ascii') for c in cases[:4]]}, cap=1)
+    tree.rmtree(wd)
+
+
+def can_encode(ch, enc):
+    try:
+        ch.encode(enc)
+        return True
+    except UnicodeEncodeError:
+        return False
+
+
 def run_shard(shard, tier, acc):
     kind = shard[0]
+    if kind == 'hexjunk':
+        return run_hexjunk(shard[1], acc)
     if kind in ('term', 'term_special', 'term8'):
         m = get_mods()
         root = tree.mkdtemp('pcfgmc-c07-')
